@@ -133,9 +133,25 @@ def show(p, f):
     return p.get("xcol")
 
 
-def vi_check(ctx, own, profile, nscripts, nsteps, rule, assumptions, exh=None):
+def mc_vi(ctx, runs):
+    """TLC on MC_Vi for (text, depth) pairs; returns totals"""
+    env, _ = lib_env(ctx)
+    tot = dict(states_generated=0, distinct_states=0, runs=[])
+    for text, depth in runs:
+        cfg = ctx.path("cfg", "mc_vi_%d_%d.cfg" % (text, depth))
+        with open(cfg, "w") as f:
+            f.write("SPECIFICATION MCSpec\nCONSTANTS MaxSteps = %d\n MCText = %d\nINVARIANT Inv\nPROPERTY StepProps\nVIEW MCView\nCHECK_DEADLOCK FALSE\n" % (depth, text))
+        r = tlc_model(ctx, "MC_Vi", cfg, timeout=10000, heap="24g", env=env)
+        tot["states_generated"] += r["generated"]
+        tot["distinct_states"] += r["distinct"]
+        tot["runs"].append({"text": text, "max_commands": depth, "distinct": r["distinct"], "wall_s": round(r["wall"])})
+    return tot
+
+
+def vi_check(ctx, own, profile, nscripts, nsteps, rule, assumptions, exh=None, mc=None):
     scripts = (gen(ctx, "corpus", 1, 1) if own == "C13" else []) + \
         gen(ctx, profile, nscripts // 2, nsteps, ai=1) + gen(ctx, profile, nscripts - nscripts // 2, nsteps, ai=0)
+    mcres = mc_vi(ctx, mc) if mc else None
     nexh = 0
     if exh:
         ex_scripts = gen_exh(ctx, *exh)
@@ -186,9 +202,14 @@ def vi_check(ctx, own, profile, nscripts, nsteps, rule, assumptions, exh=None):
                 ctx.notes.append("incomplete trace (C05) seed %s after %r: %s" % (r["seed"], r["history"][-2:], (r.get("stderr") or "")[-300:]))
     samples = [{"seed": sc["seed"], "keys": [txt(s["keys"]) for s in sc["steps"][:14]], "commands_compared": r["checked"]}
                for sc, r in list(zip(scripts, results))[:2]]
-    cov = {"states": nthm, "transitions": nthm, "traces_validated_against_impl": len(results), "samples": samples,
+    if mcres:
+        st["mc_vi"] = mcres
+    cov = {"states": nthm + (mcres["distinct_states"] if mcres else 0), "transitions": nthm + (mcres["states_generated"] if mcres else 0),
+           "traces_validated_against_impl": len(results), "samples": samples,
            "evaluations": st["commands"], "distinct_nontrivial": st["moved"], "rule": rule, "stats": st,
-           "explanation": "states/transitions = commands on which TLC evaluated Gen_Vi!Thm (cursor on an existing character and never on "
+           "explanation": "states/transitions = states of MC_Vi explored by TLC (every history of mc_vi.runs[].max_commands commands over "
+                          "Gen_Vi!ExhCmds from a small buffer, with CursorOK, MotionPure, FailStays, YankKeeps, UndoBack, Scalar) plus "
+                          "commands on which TLC evaluated Gen_Vi!Thm (cursor on an existing character and never on "
                           "the newline of a non-empty line, motions leave the text alone, scalar values only); after every command the "
                           "recorded text, cursor, sticky column and registers were compared with Vi!ViCmd"}
     return ctx.finish("model_checking", cov, assumptions)
